@@ -2,11 +2,12 @@
 (* C15 - the lock file that carries the mailbox locks and counters of several processes.
 
    One file of N bytes, byte b = the mailbox counter of terminal b; a POSIX byte-range lock
-   on byte b = the mailbox lock of terminal b.  A participant p works on terminal byte[p]:
+   on byte b = the mailbox lock of terminal b.  A user p works on terminal Bytes[p]; the file is
+   opened once per process q:
 
-     Create(p)        open(O_CREAT|O_EXCL) succeeds: the file now exists and is empty
-     WriteInit(p)     the creator brings the file to its N zero bytes
-     OpenExisting(p)  the file exists already (possibly still being initialised)
+     Create(q)        open(O_CREAT|O_EXCL) succeeds: the file now exists and is empty
+     WriteInit(q)     the creator brings the file to its N zero bytes
+     OpenExisting(q)  the file exists already (possibly still being initialised)
      TryLockf(p, ok)  non-blocking lockf on its byte; ok iff no other participant holds it
      ReadByte(p, v)   reads its counter v                      (with TryLockf: Mailbox!Acquire)
      Next(p, c)       takes the counter c for a message        (Mailbox!Send)
@@ -21,17 +22,27 @@
    c, c%7+1, ... across all participants.                                                   *)
 EXTENDS Integers, Sequences, FiniteSets, TLC
 
-CONSTANTS Procs, N, None,
-          Bytes          \* Bytes[p]: the byte (terminal) participant p works on, in 0..N-1
+(* Users are the mailbox users (one lock object each: a task, or the only task of a process);
+   ProcOf[u] is the operating-system process u lives in - the users of one process share one
+   LockFile object (one descriptor), and POSIX record locks belong to the process; Bytes[u] is
+   the byte (terminal) u works on.  Users of one process work on different terminals (users
+   of one terminal inside a process share one lock object and are serialised by it).        *)
+CONSTANTS Users, N, None,
+          ProcOf,        \* ProcOf[u]: the process of user u
+          Bytes          \* Bytes[u]: the byte (terminal) user u works on, in 0..N-1
+
+Procs == {ProcOf[u] : u \in Users}
+ASSUME \A u, v \in Users : (u # v /\ ProcOf[u] = ProcOf[v]) => Bytes[u] # Bytes[v]
 
 VARIABLES exists,        \* the file exists
           phys,          \* its content: a sequence of at most N bytes
-          owner,         \* owner[b]: the participant holding the lock on byte b, or None
-          pc,            \* pc[p]
-          ctr,           \* ctr[p]: p's copy of the counter while it holds the lock
+          owner,         \* owner[b]: the user holding the lock on byte b, or None
+          ppc,           \* ppc[q]: "start" -> "created" -> "open" of process q's LockFile
+          pc,            \* pc[u]: "idle" -> "locked" -> "holding" -> "written" -> "idle"
+          ctr,           \* ctr[u]: u's copy of the counter while it holds the lock
           last           \* last[b]: the counter of the last message for terminal b, or None
 
-lvars == <<exists, phys, owner, pc, ctr, last>>
+lvars == <<exists, phys, owner, ppc, pc, ctr, last>>
 
 Succ(c) == (c % 7) + 1
 Zeros(n) == [i \in 1 .. n |-> 0]
@@ -41,55 +52,58 @@ SetByte(f, b, v) == LET g == IF Len(f) > b THEN f ELSE f \o Zeros(b + 1 - Len(f)
 
 LInit == /\ exists = FALSE /\ phys = <<>>
          /\ owner = [b \in 0 .. N - 1 |-> None]
-         /\ pc = [p \in Procs |-> "start"]
-         /\ ctr = [p \in Procs |-> 0]
+         /\ ppc = [q \in Procs |-> "start"]
+         /\ pc = [u \in Users |-> "idle"]
+         /\ ctr = [u \in Users |-> 0]
          /\ last = [b \in 0 .. N - 1 |-> None]
 
-Create(p) == /\ pc[p] = "start" /\ ~exists
+Create(q) == /\ ppc[q] = "start" /\ ~exists
              /\ exists' = TRUE /\ phys' = <<>>
-             /\ pc' = [pc EXCEPT ![p] = "created"]
-             /\ UNCHANGED <<owner, ctr, last>>
+             /\ ppc' = [ppc EXCEPT ![q] = "created"]
+             /\ UNCHANGED <<owner, pc, ctr, last>>
 
-WriteInit(p) == /\ pc[p] = "created"
+WriteInit(q) == /\ ppc[q] = "created"
                 /\ phys' = phys \o Zeros(N - Len(phys))      \* what is there already stays
-                /\ pc' = [pc EXCEPT ![p] = "open"]
-                /\ UNCHANGED <<exists, owner, ctr, last>>
+                /\ ppc' = [ppc EXCEPT ![q] = "open"]
+                /\ UNCHANGED <<exists, owner, pc, ctr, last>>
 
-OpenExisting(p) == /\ pc[p] = "start" /\ exists
-                   /\ pc' = [pc EXCEPT ![p] = "open"]
-                   /\ UNCHANGED <<exists, phys, owner, ctr, last>>
+OpenExisting(q) == /\ ppc[q] = "start" /\ exists
+                   /\ ppc' = [ppc EXCEPT ![q] = "open"]
+                   /\ UNCHANGED <<exists, phys, owner, pc, ctr, last>>
 
-TryLockf(p, ok) == /\ pc[p] = "open"
+(* the lock on a byte stays with its holder until that holder unlocks it - whatever else the
+   holder's process does with the locks of other terminals in the meantime                   *)
+TryLockf(p, ok) == /\ ppc[ProcOf[p]] = "open" /\ pc[p] = "idle"
                    /\ ok = (owner[Bytes[p]] = None)
                    /\ IF ok THEN /\ owner' = [owner EXCEPT ![Bytes[p]] = p]
                                  /\ pc' = [pc EXCEPT ![p] = "locked"]
                             ELSE UNCHANGED <<owner, pc>>
-                   /\ UNCHANGED <<exists, phys, ctr, last>>
+                   /\ UNCHANGED <<exists, phys, ppc, ctr, last>>
 
 ReadByte(p, v) == /\ pc[p] = "locked"
                   /\ v = Logical(Bytes[p])
                   /\ ctr' = [ctr EXCEPT ![p] = v]
                   /\ pc' = [pc EXCEPT ![p] = "holding"]
-                  /\ UNCHANGED <<exists, phys, owner, last>>
+                  /\ UNCHANGED <<exists, phys, owner, ppc, last>>
 
 Next(p, c) == /\ pc[p] = "holding"
               /\ c = ctr[p]
               /\ ctr' = [ctr EXCEPT ![p] = Succ(c)]
               /\ last' = [last EXCEPT ![Bytes[p]] = c]
-              /\ UNCHANGED <<exists, phys, owner, pc>>
+              /\ UNCHANGED <<exists, phys, owner, ppc, pc>>
 
 WriteByte(p) == /\ pc[p] = "holding"
                 /\ phys' = SetByte(phys, Bytes[p], ctr[p])
                 /\ pc' = [pc EXCEPT ![p] = "written"]
-                /\ UNCHANGED <<exists, owner, ctr, last>>
+                /\ UNCHANGED <<exists, owner, ppc, ctr, last>>
 
 Unlockf(p) == /\ pc[p] = "written"
               /\ owner' = [owner EXCEPT ![Bytes[p]] = None]
-              /\ pc' = [pc EXCEPT ![p] = "open"]
-              /\ UNCHANGED <<exists, phys, ctr, last>>
+              /\ pc' = [pc EXCEPT ![p] = "idle"]
+              /\ UNCHANGED <<exists, phys, ppc, ctr, last>>
 
-LNext == \E p \in Procs :
-            \/ Create(p) \/ WriteInit(p) \/ OpenExisting(p)
+LNext == \/ \E q \in Procs : Create(q) \/ WriteInit(q) \/ OpenExisting(q)
+         \/ \E p \in Users :
             \/ \E ok \in BOOLEAN : TryLockf(p, ok)
             \/ ReadByte(p, Logical(Bytes[p]))
             \/ Next(p, ctr[p]) \/ WriteByte(p) \/ Unlockf(p)
@@ -97,16 +111,16 @@ LSpec == LInit /\ [][LNext]_lvars
 
 -----------------------------------------------------------------------------
 Holding(p) == pc[p] \in {"locked", "holding", "written"}
-MutualExclusion == \A p, q \in Procs : (Holding(p) /\ Holding(q) /\ Bytes[p] = Bytes[q]) => p = q
-OwnerAgrees == \A p \in Procs : Holding(p) <=> owner[Bytes[p]] = p
+MutualExclusion == \A p, q \in Users : (Holding(p) /\ Holding(q) /\ Bytes[p] = Bytes[q]) => p = q
+OwnerAgrees == \A p \in Users : Holding(p) <=> owner[Bytes[p]] = p
 (* ReadByte never observes a missing byte, and counters are always valid *)
-ValidCounters == /\ \A p \in Procs : ctr[p] \in 0 .. 7
+ValidCounters == /\ \A p \in Users : ctr[p] \in 0 .. 7
                  /\ Len(phys) <= N /\ \A i \in 1 .. Len(phys) : phys[i] \in 0 .. 7
 (* the chain: whoever holds terminal b continues from the last message sent for b, and while
    nobody holds it the file carries the successor                                          *)
 Chain == \A b \in 0 .. N - 1 : last[b] # None =>
-            /\ \A p \in Procs : (pc[p] \in {"holding", "written"} /\ Bytes[p] = b) => ctr[p] = Succ(last[b])
+            /\ \A p \in Users : (pc[p] \in {"holding", "written"} /\ Bytes[p] = b) => ctr[p] = Succ(last[b])
             /\ (owner[b] = None => Logical(b) = Succ(last[b]))
 (* 0 is only ever the very first counter of a terminal *)
-ZeroOnlyFirst == \A p \in Procs : (pc[p] \in {"holding", "written"} /\ ctr[p] = 0) => last[Bytes[p]] = None
+ZeroOnlyFirst == \A p \in Users : (pc[p] \in {"holding", "written"} /\ ctr[p] = 0) => last[Bytes[p]] = None
 =============================================================================
